@@ -191,6 +191,85 @@ func TestC09(t *testing.T) {
 		}
 		rec.Note("alg-pairs", fmt.Sprintf("%d distinct AlgorithmIdentifier encodings x themselves on %d bases x 3 signatures", len(pool), len(bases)))
 	}
+	// enumerated: the last extension is one no parser decodes (a private OID) and its value is a nest whose lengths lie
+	// a little at every level (gen.LyingNest): a lint that walks extension values by hand and trusts each length to
+	// within a few bytes ends up reading what follows the extensions - the outer algorithm identifier and then the
+	// signature. Also as the first extension, and inside a known extension's place (the value of a second, unknown
+	// policy qualifier is not attempted: parsers reject it).
+	{
+		co := gen.LoadCorpus()
+		var bases []gen.Obj
+		seenAlg := map[string]bool{}
+		for _, o := range co.Certs {
+			if pc, ok := gen.ParseCert(o.DER); ok && !bytes.Equal(pc.RawIssuer, pc.RawSubject) && len(pc.Signature) >= 64 && !seenAlg[pc.SignatureAlgorithm.String()] && len(pc.Extensions) > 0 {
+				seenAlg[pc.SignatureAlgorithm.String()] = true
+				bases = append(bases, o)
+				if len(bases) == 3 {
+					break
+				}
+			}
+		}
+		k := 0
+		for _, b := range bases {
+			for depth := 0; depth <= 14; depth += 1 {
+				for lenOctets := 1; lenOctets <= 3; lenOctets++ {
+					for _, slack := range []int{lenOctets, 1, 3} {
+						for _, pastKind := range []int{0, 1, 2, 3} {
+							k++
+							if !stats.Mine(k) {
+								continue
+							}
+							reach := depth * slack
+							past := []int{0, reach - 1, reach / 2, reach + 40}[pastKind]
+							if past < 0 {
+								past = 0
+							}
+							v, err := gen.ViewCert(b.DER)
+							if err != nil {
+								continue
+							}
+							nest := gen.LyingNest(300, depth, lenOctets, slack, past)
+							ext := dt.Seq(dt.OID(1, 3, 6, 1, 4, 1, 99999, 7, 1), dt.Prim(0, 4, nest))
+							seq := v.EnsureExtensions()
+							if k%5 == 0 {
+								seq.Children = append([]*dt.Node{ext}, seq.Children...)
+							} else {
+								seq.Children = append(seq.Children, ext)
+							}
+							ref := v.DER()
+							old := v.Signature().Body()
+							for _, how := range []string{"all-zero", "all-one", "counting", "one-bit"} {
+								nb := append([]byte{}, old...)
+								for x := 1; x < len(nb); x++ {
+									switch how {
+									case "all-zero":
+										nb[x] = 0
+									case "all-one":
+										nb[x] = 0xff
+									case "counting":
+										nb[x] = byte(x * 7)
+									}
+								}
+								if how == "one-bit" && len(nb) > 2 {
+									nb[1] ^= 0x40
+								}
+								v2, _ := gen.ViewCert(ref)
+								v2.Root.Children[2] = dt.Prim(0, 3, nb)
+								c := c09Case{DER: ref, DER2: v2.DER(), Base: b.Name, Ops: []string{fmt.Sprintf("lying nest in an opaque extension: depth=%d length-octets=%d slack=%d past=%d first=%v", depth, lenOctets, slack, past, k%5 == 0)}, How: how}
+								rec.Eval()
+								rec.Class("lying_nest")
+								if sig, msg := judgeC09(rec, c); msg != "" {
+									if rec.Report("c09", sig, msg, c) {
+										t.Fatalf("c09 %s %v %s: %s: %s", b.Name, c.Ops, how, sig, msg)
+									}
+								}
+							}
+						}
+					}
+				}
+			}
+		}
+	}
 	rapidRun(t, "resign", perShard(stats.Scale(15000, 600000)), func(rt *rapid.T) {
 		cc := gen.DrawCert(rt, 3, true)
 		v, err := gen.ViewCert(cc.DER)
